@@ -211,7 +211,9 @@ func NewBlockFromBytes(serializedBlock []byte) (*Block, error) {
 	if err != nil {
 		return nil, err
 	}
-	b.serializedBlock = serializedBlock
+	// Only the bytes the block was decoded from are its serialization; any
+	// bytes that follow it in the caller's buffer are not part of it.
+	b.serializedBlock = serializedBlock[:len(serializedBlock)-br.Len()]
 	return b, nil
 }
 
